@@ -1,6 +1,6 @@
 /-
-  Lemmas for C15 (engine `text`): the *position* part of the Float round trip — scanf's `%lf` consumes exactly the text
-  printf's `%f` produced (the value is libc's: see Props/C15.lean).
+  Lemmas for C15 (engine `text`): the *position* part of the Float round trip — the floating conversions of scanf (into a `double`
+  or into a `float`) consume exactly the text printf's `%f` `%e` `%g` produced (the value: Lemmas/TextRound.lean).
 -/
 import CelloProofs.Lemmas.Text
 
@@ -18,6 +18,17 @@ theorem spanDigits_run (ds r : List Nat) (hds : ∀ b ∈ ds, isDigit b = true) 
     simp only [List.cons_append, spanDigits, hd, if_true]
     rw [ih (fun b hb => hds b (List.mem_cons_of_mem _ hb))]
 
+theorem natDigits_digits (n : Nat) : ∀ b ∈ natDigits n, 48 ≤ b ∧ b ≤ 57 := by
+  induction n using Nat.strongRecOn with
+  | _ n ih =>
+    rw [natDigits]; split
+    · intro b hb; simp at hb; omega
+    · intro b hb
+      simp only [List.mem_append, List.mem_singleton] at hb
+      rcases hb with hb | hb
+      · exact ih (n / 10) (by omega) b hb
+      · omega
+
 theorem natDigits_isDigit (n : Nat) : ∀ b ∈ natDigits n, isDigit b = true := by
   intro b hb
   have := natDigits_digits n b hb
@@ -26,90 +37,324 @@ theorem natDigits_isDigit (n : Nat) : ∀ b ∈ natDigits n, isDigit b = true :=
 theorem natDigits_ne_nil (n : Nat) : natDigits n ≠ [] := by
   rw [natDigits]; split <;> simp
 
-/-- a decimal text `[-]ip.fp` followed by text that starts neither with a digit nor with an exponent letter -/
-theorem scanDouble_dec (neg : Bool) (ip fp f : List Nat) (hip : ∀ b ∈ ip, isDigit b = true) (hne : ip ≠ [])
-    (hfp : ∀ b ∈ fp, isDigit b = true) (hf : fltSafe f = true) :
-    scanDouble ((if neg then [45] else []) ++ ip ++ 46 :: fp ++ f)
-      = .ok (decToBits neg (digitsVal (ip ++ fp)) (0 - fp.length), f) := by
+/-- the text after the integer digits: optionally `.` and fraction digits, optionally an exponent part (letter, sign, digits) -/
+def dotText : Option (List Nat) → List Nat
+  | none => []
+  | some fp => 46 :: fp
+
+def exText : Option (Nat × Nat × List Nat) → List Nat
+  | none => []
+  | some (l, s, ed) => l :: s :: ed
+
+def exVal : Option (Nat × Nat × List Nat) → Int
+  | none => 0
+  | some (_, s, ed) => if s = 45 then -(digitsVal ed : Int) else (digitsVal ed : Int)
+
+/-- what may follow such a text without continuing it: never a digit or an exponent letter; without a point and an exponent
+    also no point and no `x`/`X` (a lone `0` would become a hexadecimal prefix) -/
+def tailSafe (noDot : Bool) (f : List Nat) : Bool := fltSafe f && (!noDot || gSafe f)
+
+theorem lower_digit (e : Nat) (he : 48 ≤ e ∧ e ≤ 57) : lower e = e := by
+  simp only [lower]; split <;> omega
+
+/-- **a decimal floating text** `[-]ip[.fp][e±ed]` followed by text that does not continue it: scanf consumes exactly the text and
+    converts mantissa and exponent -/
+theorem scanFloating_shape (narrow neg : Bool) (ip : List Nat) (dot : Option (List Nat)) (ex : Option (Nat × Nat × List Nat))
+    (f : List Nat) (hip : ∀ b ∈ ip, isDigit b = true) (hne : ip ≠ [])
+    (hfp : ∀ fp, dot = some fp → ∀ b ∈ fp, isDigit b = true)
+    (hex : ∀ l s ed, ex = some (l, s, ed) → (l = 101 ∨ l = 69) ∧ (s = 43 ∨ s = 45) ∧ (∀ b ∈ ed, isDigit b = true))
+    (hf : tailSafe (dot.isNone && ex.isNone) f = true) :
+    scanFloating narrow ((if neg then [45] else []) ++ ip ++ (dotText dot ++ (exText ex ++ f)))
+      = .ok (decToBitsW narrow neg (digitsVal (ip ++ dot.getD [])) (exVal ex - (dot.getD []).length), f) := by
   obtain ⟨d, ip', rfl⟩ := List.exists_cons_of_ne_nil hne
   have hd : isDigit d = true := hip d List.mem_cons_self
   have hd' : 48 ≤ d ∧ d ≤ 57 := by simpa [isDigit] using hd
   have hsp : isSpace d = false := by simp [isSpace]; omega
-  simp only [fltSafe, Bool.not_eq_true'] at hf
+  simp only [tailSafe, fltSafe, gSafe, Bool.and_eq_true, Bool.not_eq_true', Bool.or_eq_true] at hf
+  obtain ⟨hf0, hfg⟩ := hf
   have hf1 : headIs isDigit f = false := by
     cases f with
     | nil => rfl
-    | cons b t => simp only [headIs, Bool.or_eq_false_iff] at hf ⊢; exact hf.1.1
-  have hexp : spanExponent f = (0, f) := by
-    cases f with
-    | nil => rfl
-    | cons e t =>
-      simp only [headIs, Bool.or_eq_false_iff, beq_eq_false_iff_ne] at hf
-      have : ¬(e = 101 ∨ e = 69) := by omega
-      simp [spanExponent, this]
-  have h46 : headIs isDigit (46 :: fp ++ f) = false := by simp [headIs, isDigit]
-  have hspan1 : spanDigits (d :: ip' ++ (46 :: fp ++ f)) = (d :: ip', 46 :: fp ++ f) := spanDigits_run _ _ hip h46
-  have hspan2 : spanDigits (fp ++ f) = (fp, f) := spanDigits_run _ _ hfp hf1
-  have hman : spanMantissa (d :: ip' ++ (46 :: fp ++ f)) = (d :: ip', fp, f) := by
-    simp only [spanMantissa, hspan1]
-    simp only [List.cons_append] at hspan2 ⊢
-    rw [hspan2]
-  have hlow : ∀ e, 48 ≤ e ∧ e ≤ 57 → lower e = e := by
-    intro e he; simp only [lower]; split <;> omega
-  have hspec : floatSpecial (d :: ip' ++ (46 :: fp ++ f)) = none := by
-    simp only [List.cons_append, floatSpecial, hlow d hd']
+    | cons b t => simp only [headIs, Bool.or_eq_false_iff] at hf0 ⊢; exact hf0.1.1
+  have hfe : ∀ b t, f = b :: t → b ≠ 101 ∧ b ≠ 69 := by
+    intro b t hb; subst hb
+    simp only [headIs, Bool.or_eq_false_iff, beq_eq_false_iff_ne] at hf0
+    exact ⟨hf0.1.2, hf0.2⟩
+  -- the exponent part
+  have hexp : spanExponent (exText ex ++ f) = (exVal ex, f) := by
+    cases ex with
+    | none =>
+      simp only [exText, exVal, List.nil_append]
+      cases f with
+      | nil => rfl
+      | cons e t =>
+        have := hfe e t rfl
+        have : ¬(e = 101 ∨ e = 69) := by omega
+        simp [spanExponent, this]
+    | some les =>
+      obtain ⟨l, s, ed⟩ := les
+      obtain ⟨hl, hs, hed⟩ := hex l s ed rfl
+      have hsd : spanDigits (ed ++ f) = (ed, f) := spanDigits_run ed f hed hf1
+      simp only [exText, exVal, List.cons_append, spanExponent, hl, if_true]
+      rcases hs with hs | hs <;> subst hs <;> simp [hsd]
+  have hexhead : headIs isDigit (exText ex ++ f) = false := by
+    cases ex with
+    | none => simpa [exText] using hf1
+    | some les =>
+      obtain ⟨l, s, ed⟩ := les
+      obtain ⟨hl, _, _⟩ := hex l s ed rfl
+      rcases hl with hl | hl <;> subst hl <;> simp [exText, headIs, isDigit]
+  -- the mantissa
+  have hman : spanMantissa (d :: ip' ++ (dotText dot ++ (exText ex ++ f))) = (d :: ip', dot.getD [], exText ex ++ f) := by
+    cases dot with
+    | some fp =>
+      have h46 : headIs isDigit (46 :: (fp ++ (exText ex ++ f))) = false := by simp [headIs, isDigit]
+      have hspan1 : spanDigits (d :: ip' ++ (46 :: (fp ++ (exText ex ++ f)))) = (d :: ip', 46 :: (fp ++ (exText ex ++ f))) :=
+        spanDigits_run _ _ hip h46
+      have hspan2 : spanDigits (fp ++ (exText ex ++ f)) = (fp, exText ex ++ f) := spanDigits_run _ _ (hfp fp rfl) hexhead
+      simp only [dotText, List.cons_append, Option.getD_some] at hspan1 ⊢
+      simp only [spanMantissa, hspan1, hspan2]
+    | none =>
+      have hspan1 : spanDigits (d :: ip' ++ (exText ex ++ f)) = (d :: ip', exText ex ++ f) := spanDigits_run _ _ hip hexhead
+      have hno46 : ∀ b t, exText ex ++ f = b :: t → b ≠ 46 := by
+        intro b t hbt
+        cases ex with
+        | some les =>
+          obtain ⟨l, s, ed⟩ := les
+          obtain ⟨hl, _, _⟩ := hex l s ed rfl
+          simp only [exText, List.cons_append, List.cons.injEq] at hbt
+          omega
+        | none =>
+          simp only [exText, List.nil_append] at hbt
+          have := hfg.resolve_left (by simp)
+          rw [hbt] at this
+          simp only [headIs, Bool.or_eq_false_iff, beq_eq_false_iff_ne] at this
+          exact this.1.2
+      simp only [dotText, List.nil_append, Option.getD_none] at hspan1 ⊢
+      simp only [spanMantissa, hspan1]
+      cases hR : exText ex ++ f with
+      | nil => rfl
+      | cons b t =>
+        have := hno46 b t hR
+        split
+        · rename_i heq; simp only [List.cons.injEq] at heq; omega
+        · rfl
+  have hspec : floatSpecial (d :: ip' ++ (dotText dot ++ (exText ex ++ f))) = none := by
+    simp only [List.cons_append, floatSpecial, lower_digit d hd']
     have h1 : ¬ d = 110 := by omega
     have h2 : ¬ d = 105 := by omega
     simp only [h1, h2, if_false]
     split
     · cases ip' with
-      | nil => simp [lower]
       | cons e t =>
         have he : isDigit e = true := hip e (by simp)
         have he' : 48 ≤ e ∧ e ≤ 57 := by simpa [isDigit] using he
         have : ¬ e = 120 := by omega
-        simp [hlow e he', this]
+        simp [lower_digit e he', this]
+      | nil =>
+        simp only [List.nil_append]
+        cases dot with
+        | some fp => simp [dotText, lower]
+        | none =>
+          cases ex with
+          | some les =>
+            obtain ⟨l, s, ed⟩ := les
+            obtain ⟨hl, _, _⟩ := hex l s ed rfl
+            rcases hl with hl | hl <;> subst hl <;> simp [dotText, exText, lower]
+          | none =>
+            simp only [dotText, exText, List.nil_append]
+            cases f with
+            | nil => rfl
+            | cons b t =>
+              have := hfg.resolve_left (by simp)
+              simp only [headIs, isXx, Bool.or_eq_false_iff, beq_eq_false_iff_ne] at this
+              have hb : lower b ≠ 120 := by
+                simp only [lower]; split <;> omega
+              simp [hb]
     · rfl
   cases neg with
   | true =>
-    simp only [if_true, List.cons_append, List.nil_append, List.append_assoc, scanDouble]
+    simp only [if_true, List.cons_append, List.nil_append, scanFloating]
     rw [skipSpace_nonspace 45 _ (by decide)]
-    simp only [List.cons_append, List.append_assoc] at hman hspec
+    simp only [List.cons_append] at hman hspec
     simp [hman, hspec, hexp]
   | false =>
-    simp only [Bool.false_eq_true, if_false, List.cons_append, List.nil_append, List.append_assoc, scanDouble]
+    simp only [Bool.false_eq_true, if_false, List.cons_append, List.nil_append, scanFloating]
     rw [skipSpace_nonspace d _ hsp]
-    have e1 : ¬ (d = 45 ∨ d = 43) := by omega
     have e2 : ¬ d = 45 := by omega
     have e3 : ¬ d = 43 := by omega
-    simp only [List.cons_append, List.append_assoc] at hman hspec
+    simp only [List.cons_append] at hman hspec
     simp [e2, e3, hman, hspec, hexp]
 
-/-- digits of `10^6 + r` without the leading one: the six decimals -/
-theorem printF_shape (bits : Nat) : ∃ (neg : Bool) (ip fp : List Nat),
-    printF bits = (if neg then [45] else []) ++ ip ++ 46 :: fp ∧ (∀ b ∈ ip, isDigit b = true) ∧ ip ≠ [] ∧
-      (∀ b ∈ fp, isDigit b = true) := by
+/-- a text is *a decimal floating text*: it has the shape above, so scanf (any floating conversion, either destination) consumes
+    exactly it when what follows is `tailSafe`, and converts a mantissa and exponent that do not depend on what follows -/
+def FloatText (t : List Nat) (noDot : Bool) : Prop :=
+  ∃ (neg : Bool) (mant : Nat) (k : Int), ∀ (narrow : Bool) (f : List Nat), tailSafe noDot f = true →
+    scanFloating narrow (t ++ f) = .ok (decToBitsW narrow neg mant k, f)
+
+theorem floatText_of_shape (neg : Bool) (ip : List Nat) (dot : Option (List Nat)) (ex : Option (Nat × Nat × List Nat))
+    (hip : ∀ b ∈ ip, isDigit b = true) (hne : ip ≠ [])
+    (hfp : ∀ fp, dot = some fp → ∀ b ∈ fp, isDigit b = true)
+    (hex : ∀ l s ed, ex = some (l, s, ed) → (l = 101 ∨ l = 69) ∧ (s = 43 ∨ s = 45) ∧ (∀ b ∈ ed, isDigit b = true)) :
+    FloatText ((if neg then [45] else []) ++ ip ++ dotText dot ++ exText ex) (dot.isNone && ex.isNone) := by
+  refine ⟨neg, digitsVal (ip ++ dot.getD []), exVal ex - (dot.getD []).length, ?_⟩
+  intro narrow f hf
+  have := scanFloating_shape narrow neg ip dot ex f hip hne hfp hex hf
+  simpa [List.append_assoc] using this
+
+theorem floatText_weaken (t : List Nat) (b : Bool) (h : FloatText t b) : FloatText t true := by
+  obtain ⟨neg, mant, k, h⟩ := h
+  exact ⟨neg, mant, k, fun narrow f hf => h narrow f (by
+    simp only [tailSafe, Bool.and_eq_true] at hf ⊢; exact ⟨hf.1, by cases b <;> simp_all⟩)⟩
+
+/-! ### the texts printf writes are decimal floating texts -/
+
+theorem sixDigits_isDigit (q : Nat) : ∀ b ∈ (natDigits (10 ^ 6 + q % 10 ^ 6)).drop 1, isDigit b = true :=
+  fun b hb => natDigits_isDigit _ b (List.mem_of_mem_drop hb)
+
+theorem printF_floatText (bits : Nat) : FloatText (printF bits) false := by
   simp only [printF]
   generalize fDecode bits = d
   obtain ⟨sg, m, e⟩ := d
   simp only
-  generalize (if e ≥ 0 then m * 2 ^ e.toNat * 10 ^ 6 else roundHalfEven (m * 10 ^ 6) (2 ^ (-e).toNat)) = q
-  refine ⟨sg, natDigits (q / 10 ^ 6), (natDigits (10 ^ 6 + q % 10 ^ 6)).drop 1, ?_, natDigits_isDigit _, natDigits_ne_nil _, ?_⟩
-  · cases sg <;> simp
-  · intro b hb
-    exact natDigits_isDigit _ b (List.mem_of_mem_drop hb)
+  generalize fScaled m e = q
+  have := floatText_of_shape sg (natDigits (q / 10 ^ 6)) (some ((natDigits (10 ^ 6 + q % 10 ^ 6)).drop 1)) none
+    (natDigits_isDigit _) (natDigits_ne_nil _) (by intro fp h; cases h; exact sixDigits_isDigit q) (by intro l s ed h; cases h)
+  simpa [dotText, exText, List.append_assoc] using this
 
-/-- **`%lf` consumes exactly what `%f` wrote**, whatever follows that does not continue the number, and the value it stores
-    does not depend on what follows -/
-theorem scanDouble_printF (bits : Nat) (f : List Nat) (hf : fltSafe f = true) :
-    scanDouble (printF bits ++ f) = .ok (reparse bits, f) := by
-  obtain ⟨neg, ip, fp, hp, hip, hne, hfp⟩ := printF_shape bits
-  have h1 := scanDouble_dec neg ip fp f hip hne hfp hf
-  have h2 := scanDouble_dec neg ip fp [] hip hne hfp (by decide)
+theorem expText_shape (upper : Bool) (x : Int) : ∃ l s ed, expText upper x = l :: s :: ed ∧ (l = 101 ∨ l = 69) ∧ (s = 43 ∨ s = 45) ∧
+    (∀ b ∈ ed, isDigit b = true) := by
+  refine ⟨if upper then 69 else 101, if x < 0 then 45 else 43, (if x.natAbs < 10 then [48] else []) ++ natDigits x.natAbs, ?_, ?_, ?_, ?_⟩
+  · simp [expText]
+  · cases upper <;> simp
+  · split <;> simp
+  · intro b hb
+    simp only [List.mem_append] at hb
+    rcases hb with hb | hb
+    · split at hb <;> simp at hb; subst hb; rfl
+    · exact natDigits_isDigit _ b hb
+
+theorem printE_floatText (upper : Bool) (bits : Nat) : FloatText (printE upper bits) false := by
+  simp only [printE]
+  generalize fDecode bits = d
+  obtain ⟨sg, m, e⟩ := d
+  simp only
+  generalize (if m = 0 then ((0, 0) : Nat × Int) else sciDigits 6 (fFrac m e).1 (fFrac m e).2) = dx
+  obtain ⟨l, s, ed, hE, hl, hs, hed⟩ := expText_shape upper dx.2
+  have := floatText_of_shape sg (natDigits (dx.1 / 10 ^ 6)) (some ((natDigits (10 ^ 6 + dx.1 % 10 ^ 6)).drop 1)) (some (l, s, ed))
+    (natDigits_isDigit _) (natDigits_ne_nil _)
+    (by intro fp h; cases h; exact sixDigits_isDigit dx.1) (by intro l' s' ed' h; cases h; exact ⟨hl, hs, hed⟩)
+  rw [hE]
+  simpa [dotText, exText, List.append_assoc] using this
+
+theorem mem_stripZeros (l : List Nat) : ∀ b ∈ stripZeros l, b ∈ l := by
+  intro b hb
+  simp only [stripZeros, List.mem_reverse] at hb
+  exact List.mem_reverse.1 ((List.dropWhile_suffix _).subset hb)
+
+/-- the optional point and fraction of `%g` as a `dotText` -/
+theorem pt_dotText (frac : List Nat) :
+    (if frac.isEmpty then [] else 46 :: frac) = dotText (if frac.isEmpty then none else some frac) := by
+  split <;> rfl
+
+theorem printG_floatText (upper : Bool) (bits : Nat) : FloatText (printG upper bits) true := by
+  simp only [printG]
+  generalize fDecode bits = d
+  obtain ⟨sg, m, e⟩ := d
+  simp only
+  split
+  · -- zero: "0" / "-0"
+    have := floatText_of_shape sg [48] none none (by intro b hb; simp at hb; subst hb; rfl) (by simp)
+      (by intro fp h; cases h) (by intro l s ed h; cases h)
+    simpa [dotText, exText] using this
+  · generalize sciDigits 5 (fFrac m e).1 (fFrac m e).2 = dx
+    have hds := natDigits_isDigit dx.1
+    have hdsne := natDigits_ne_nil dx.1
+    have hfrac : ∀ (l : List Nat), (∀ b ∈ l, isDigit b = true) → ∀ fp, (if (stripZeros l).isEmpty then none else some (stripZeros l)) = some fp →
+        ∀ b ∈ fp, isDigit b = true := by
+      intro l hl fp hfp b hb
+      split at hfp
+      · cases hfp
+      · cases hfp; exact hl b (mem_stripZeros l b hb)
+    split
+    · -- style e
+      obtain ⟨l, s, ed, hE, hl, hs, hed⟩ := expText_shape upper dx.2
+      have hip : ∀ b ∈ (natDigits dx.1).take 1, isDigit b = true := fun b hb => hds b (List.mem_of_mem_take hb)
+      have hne : (natDigits dx.1).take 1 ≠ [] := by
+        obtain ⟨a, t, h⟩ := List.exists_cons_of_ne_nil hdsne; rw [h]; simp
+      have := floatText_of_shape sg ((natDigits dx.1).take 1)
+        (if (stripZeros ((natDigits dx.1).drop 1)).isEmpty then none else some (stripZeros ((natDigits dx.1).drop 1))) (some (l, s, ed))
+        hip hne (hfrac _ (fun b hb => hds b (List.mem_of_mem_drop hb))) (by intro l' s' ed' h; cases h; exact ⟨hl, hs, hed⟩)
+      rw [hE, pt_dotText]
+      have h2 : FloatText ((if sg = true then [45] else []) ++ (natDigits dx.1).take 1 ++
+          dotText (if (stripZeros ((natDigits dx.1).drop 1)).isEmpty then none else some (stripZeros ((natDigits dx.1).drop 1))) ++ l :: s :: ed) true := by
+        exact floatText_weaken _ _ this
+      simpa [List.append_assoc] using h2
+    · split
+      · -- style f, exponent ≥ 0
+        have hip : ∀ b ∈ (natDigits dx.1).take (dx.2.toNat + 1), isDigit b = true := fun b hb => hds b (List.mem_of_mem_take hb)
+        have hne : (natDigits dx.1).take (dx.2.toNat + 1) ≠ [] := by
+          obtain ⟨a, t, h⟩ := List.exists_cons_of_ne_nil hdsne; rw [h]; simp
+        have := floatText_of_shape sg ((natDigits dx.1).take (dx.2.toNat + 1))
+          (if (stripZeros ((natDigits dx.1).drop (dx.2.toNat + 1))).isEmpty then none else some (stripZeros ((natDigits dx.1).drop (dx.2.toNat + 1)))) none
+          hip hne (hfrac _ (fun b hb => hds b (List.mem_of_mem_drop hb))) (by intro l' s' ed' h; cases h)
+        rw [pt_dotText]
+        have := floatText_weaken _ _ this
+        simpa [exText, List.append_assoc] using this
+      · -- style f, exponent < 0: "0." zeros digits
+        have hz : ∀ b ∈ List.replicate ((-dx.2).toNat - 1) 48 ++ natDigits dx.1, isDigit b = true := by
+          intro b hb
+          simp only [List.mem_append, List.mem_replicate] at hb
+          rcases hb with hb | hb
+          · rw [hb.2]; rfl
+          · exact hds b hb
+        have := floatText_of_shape sg [48]
+          (if (stripZeros (List.replicate ((-dx.2).toNat - 1) 48 ++ natDigits dx.1)).isEmpty then none
+            else some (stripZeros (List.replicate ((-dx.2).toNat - 1) 48 ++ natDigits dx.1))) none
+          (by intro b hb; simp at hb; subst hb; rfl) (by simp) (hfrac _ hz) (by intro l' s' ed' h; cases h)
+        rw [pt_dotText]
+        have := floatText_weaken _ _ this
+        simpa [exText, List.append_assoc] using this
+
+/-- what printf writes under every floating specification of the model is a decimal floating text -/
+def FConv.isG : FConv → Bool
+  | .g | .G => true
+  | _ => false
+
+theorem printFloatSpec_floatText (cv : FConv) (bits : Nat) : FloatText (printFloatSpec cv bits) cv.isG := by
+  cases cv <;> simp only [printFloatSpec]
+  · exact printF_floatText bits
+  · exact printF_floatText bits
+  · exact printE_floatText false bits
+  · exact printE_floatText true bits
+  · exact printG_floatText false bits
+  · exact printG_floatText true bits
+
+theorem tailSafe_of_fspecSafe (cv : FConv) (f : List Nat) (h : fspecSafe cv f = true) :
+    tailSafe cv.isG f = true := by
+  have hg : gSafe f = true → fltSafe f = true := by
+    intro hg
+    cases f with
+    | nil => rfl
+    | cons b t =>
+      simp only [gSafe, fltSafe, headIs, Bool.not_eq_true', Bool.or_eq_false_iff] at hg ⊢
+      exact ⟨⟨hg.1.1.1.1, hg.1.1.1.2⟩, hg.1.1.2⟩
+  cases cv <;> simp only [fspecSafe] at h <;> simp [tailSafe, FConv.isG, h, hg]
+
+/-- **the floating conversions of scanf consume exactly what printf wrote**, whatever follows that does not continue the number,
+    into a `double` or into a `float` alike, and the value stored does not depend on what follows -/
+theorem scanFloating_print (narrow : Bool) (cv : FConv) (bits : Nat) (f : List Nat) (hf : fspecSafe cv f = true) :
+    scanFloating narrow (printFloatSpec cv bits ++ f) = .ok (reparseSpec narrow cv bits, f) := by
+  obtain ⟨neg, mant, k, h⟩ := printFloatSpec_floatText cv bits
+  have h1 := h narrow f (tailSafe_of_fspecSafe cv f hf)
+  have h2 := h narrow [] (by cases cv <;> rfl)
   simp only [List.append_nil] at h2
-  have hr : reparse bits = decToBits neg (digitsVal (ip ++ fp)) (0 - fp.length) := by
-    simp only [reparse, hp, h2]
-  rw [hr, hp]
-  simpa [List.append_assoc] using h1
+  rw [h1]
+  simp [reparseSpec, h2]
+
+/-- `%lf` on what `%f` wrote (the pair `Float_Show` / `Float_Look` uses) -/
+theorem scanDouble_printF (bits : Nat) (f : List Nat) (hf : fltSafe f = true) :
+    scanDouble (printF bits ++ f) = .ok (reparse bits, f) :=
+  scanFloating_print false .f bits f hf
 
 end Cello.Text
